@@ -24,6 +24,7 @@ structure St where
   handoffTo : Option Nat := none       -- target of a handoff request answered ok, not yet seen
   taken : List Nat := []               -- nodes on which a primary-scoped context was taken while primary
   expectRelease : Option Nat := none   -- a demotion / renewal failure / stop of this primary must destroy the lease
+  outage : Option Nat := none          -- this node was primary when every renewal began to fail (the op returns once a full TTL and more has passed)
   dead : Bool := false
 
 def parseRoles (obs : String) : List (Nat × String × String) × String × String :=
@@ -53,7 +54,8 @@ def check (st : St) (op obs : String) : St × String :=
   | ["down", p] => ({ st with expectRelease := if st.holder == p.toNat? then p.toNat? else st.expectRelease, taken := st.taken.filter (some · ≠ p.toNat?) }, "ok")
   | ["crash", p] => ({ st with taken := st.taken.filter (some · ≠ p.toNat?) }, "ok")
   | ["up", p] => ({ st with taken := st.taken.filter (some · ≠ p.toNat?) }, "ok")
-  | ["renewerr", "on"] => ({ st with expectRelease := st.holder }, "ok")
+  | ["renewerr", "on"] => ({ st with expectRelease := st.holder, outage := st.holder }, "ok")
+  | ["renewerr", "off"] => ({ st with outage := none }, "ok")
   | ["pctx-take", k] => (if obs == "alive" then { st with taken := (k.toNat?.getD 0) :: st.taken } else st, "ok")
   | ["events"] =>
     if obs == "-" then (st, "ok") else
@@ -82,6 +84,8 @@ def check (st : St) (op obs : String) : St × String :=
     let st := { st with lastRoles := nodes, svcCid := c }
     let prim := nodes.filter fun n => n.2.1 == "primary"
     if prim.length > 1 then (st, s!"FAIL more than one node acts as primary: {obs.take 120}") else
+    if (match st.outage with | some p => prim.any (fun n => n.1 == p) | none => false) then
+      (st, s!"FAIL node {st.outage.getD 0} still acts as primary although its lease renewals have failed for longer than the lease's time to live") else
     (match prim.head? with
      | some (k, _, _) => if h ≠ toString k then (st, s!"FAIL node {k} acts as primary, the lease service's holder is {h}") else (st, "ok")
      | none => (st, "ok")) |> fun r =>
